@@ -334,7 +334,7 @@ def strategy():
 
 # ---- every documented form of a dictionary value, in every slot ------------------------------------------------
 
-FORM_VALUES = ['Phospho', 0, 0.0, 1.5, -3, ['Phospho'], [0], ['Phospho', 2.5], 'MOD', []]   # 'MOD' = a Mod object; [] = no modifications
+FORM_VALUES = ['Phospho', 0, 0.0, 1.5, -3, ['Phospho'], [0], ['Phospho', 2.5], 'MOD', [], None]   # 'MOD' = a Mod object; [] and None = no modifications
 FORM_SLOTS = ['labile', 'unknown', 'nterm', 'cterm', 'internal', 'intervals']
 FORM_BASES = [dict.fromkeys(FORM_SLOTS, ()),
               {'labile': ('Glycan:Hex',), 'unknown': ('Formula:C',), 'nterm': ('Acetyl',), 'cterm': ('Amidated',), 'internal': ('Oxidation',),
@@ -359,7 +359,7 @@ def check_forms(case) -> Result:
     r.nontrivial = bool(base[slot]) and append
     r.classes = [f'slot={slot}', f'path={path}', f'append={append}', 'value=' + type(val).__name__]
     arg = Mod('Phospho', 2) if val == 'MOD' else copy.deepcopy(val)
-    texts = ['Phospho]^2['] if val == 'MOD' else [str(v) for v in (val if isinstance(val, list) else [val])]
+    texts = ['Phospho]^2['] if val == 'MOD' else [] if val is None else [str(v) for v in (val if isinstance(val, list) else [val])]
     texts = ['Phospho'] if val == 'MOD' else texts
     start = _form_string(base)
     exp_mods = {k: list(v) for k, v in base.items()}
@@ -396,6 +396,8 @@ def check_forms(case) -> Result:
 def form_cases():
     for slot in FORM_SLOTS:
         for vi in range(len(FORM_VALUES)):
+            if FORM_VALUES[vi] is None and slot != 'intervals':
+                continue  # None as "no modifications" is the form of an interval tuple; add_mods rejects it elsewhere (ValueError)
             for base in (0, 1):
                 for append in (False, True):
                     for path in ('add_mods', 'add_mod_dict'):
@@ -406,4 +408,4 @@ def parts(tier):
     n = 4000 if tier == 'quick' else 150000
     return [Part(name='dict-copy-eq', kind='hyp', check_case=check_case, strategy=strategy, examples=n),
             Part(name='value-forms', kind='enum', check_case=check_forms, cases=form_cases, exhaustive=True, shards=8,
-                 space='6 slots x 9 value forms (text, 0, 0.0, decimal, negative, lists, Mod object) x empty / occupied slot x append or replace x add_mods (string) / add_mod_dict (annotation)')]
+                 space='6 slots x 11 value forms (text, 0, 0.0, decimal, negative, lists, Mod object, empty list, None) x empty / occupied slot x append or replace x add_mods (string) / add_mod_dict (annotation)')]
